@@ -184,7 +184,7 @@ def check(run: Run):
         import lf_C07
         import trace_C07
 
-        trace_C07.record_and_validate(run, scratch, 3 if run.tier == "quick" else 12)
+        trace_C07.record_and_validate(run, scratch, 5 if run.tier == "quick" else 15)
         lf_C07.run_layers(run, scratch)
     run.cov["rule"] = (
         "layer 1: every (state, change-vector) transition of Recalc.tla for each DAG shape replayed on a real Calculator "
